@@ -882,8 +882,13 @@ class SimReactor(object):
                 lport = 40000 + sim.net._cid * 7 + sim.ch.draw(5, 'lport')
                 if self.local_port_hook is not None:
                     lport = self.local_port_hook(c, lport)
-                host = address.IPv4Address('TCP', '127.0.0.1', lport)
-                dest = address.IPv4Address('TCP', c.dest[0], c.dest[1])
+                if ':' in str(c.dest[0]):
+                    # an IPv6 destination: the connection's own end is on the IPv6 loopback
+                    host = address.IPv6Address('TCP', '::1', lport)
+                    dest = address.IPv6Address('TCP', c.dest[0], c.dest[1])
+                else:
+                    host = address.IPv4Address('TCP', '127.0.0.1', lport)
+                    dest = address.IPv4Address('TCP', c.dest[0], c.dest[1])
             else:
                 sim.net._cid += 1
                 host = address.UNIXAddress(None)
